@@ -218,7 +218,7 @@ class DefaultHelpFormatter(HelpFormatter):
 
         def set_comments(cfg, prefix="", depth=0):
             for key in cfg.keys():
-                full_key = (prefix + "." if prefix else "") + key
+                full_key = (prefix + "." if prefix else "") + str(key)  # dict values may have non-string keys
                 action = _find_action(parser, full_key)
                 text = None
                 if full_key in group_titles and isinstance(cfg[key], dict):
